@@ -37,17 +37,17 @@ func runC16(c *fw.Ctx) {
 	for B := 1; B <= 6; B++ {
 		for D := 1; D <= 6; D++ {
 			for O := 1; O <= 6; O++ {
-				for rep := 0; rep < c.Pick(15, 300); rep++ {
+				for rep := 0; rep < c.Pick(15, 900); rep++ {
 					B, D, O := B, D, O
 					c.Case(func(k *fw.K) { c16History(k, B, D, O) })
 				}
 			}
 		}
 	}
-	for i := 0; i < c.Pick(500, 5000); i++ {
+	for i := 0; i < c.Pick(500, 20000); i++ {
 		c.Case(func(k *fw.K) { c16Defaults(k) })
 	}
-	for i := 0; i < c.Pick(150, 1500); i++ { // long feature or batch sizes (127..1025)
+	for i := 0; i < c.Pick(150, 5000); i++ { // long feature or batch sizes (127..1025)
 		c.Case(func(k *fw.K) {
 			B, D, O := 1+k.Rng.Intn(3), 1+k.Rng.Intn(3), 1+k.Rng.Intn(3)
 			n := LongSizes[k.Rng.Intn(17)]
@@ -60,10 +60,10 @@ func runC16(c *fw.Ctx) {
 			c16History(k, B, D, O)
 		})
 	}
-	for i := 0; i < c.Pick(300, 3000); i++ {
+	for i := 0; i < c.Pick(300, 10000); i++ {
 		c.Case(func(k *fw.K) { c16SharedInitializer(k) })
 	}
-	for i := 0; i < c.Pick(600, 6000); i++ {
+	for i := 0; i < c.Pick(600, 20000); i++ {
 		c.Case(func(k *fw.K) { c16Accumulate(k) })
 	}
 }
@@ -91,6 +91,13 @@ func c16History(k *fw.K, B, D, O int) {
 		k.Failf("NewFC(%d -> %d): panic=%v err=%v", D, O, p, err)
 		return
 	}
+	fc, how, originalUntouched := fcVariant(k, fc)
+	k.Count("histories_on_a_layer_obtained_as_"+how, 1)
+	defer func() {
+		if msg := originalUntouched(); msg != "" && !k.Failed() {
+			k.Failf("%s", msg)
+		}
+	}()
 	var held []layers.Weight
 	ptrs := func() []layers.Weight {
 		if discipline == 2 || held == nil {
@@ -242,6 +249,9 @@ func c16History(k *fw.K, B, D, O int) {
 			*ws[1].Value = c16Param(k, curB)
 			log = append(log, "replace B")
 		}
+		if discipline == 2 { // the slice Weights() returned is the caller's: it is overwritten after use
+			ws[0], ws[1] = layers.Weight{}, ws[0]
+		}
 		if _, _, _, ok := forward(fmt.Sprintf("Forward after replacement %d (%s)", r+1, []string{"W", "B", "W and B"}[which]), false); !ok {
 			return
 		}
@@ -391,6 +401,28 @@ func c16Param(k *fw.K, v *ref.T) tensor.Tensor {
 		panic("harness: derived parameter: " + err.Error())
 	}
 	return t
+}
+
+// fcVariant turns a layer built by NewFC into the layer the history works on: the same object, a layer assembled as a
+// struct literal from the two parameter tensors (FC's fields are exported), or a VALUE COPY of the layer taken after
+// Weights() had been called on the original. after() reports if the original was touched by work done on the copy.
+func fcVariant(k *fw.K, built *layers.FC) (fc *layers.FC, how string, after func() string) {
+	none := func() string { return "" }
+	switch k.Rng.Intn(4) {
+	case 0:
+		return &layers.FC{Weight: built.Weight, Bias: built.Bias}, "struct literal", none
+	case 1:
+		_ = built.Weights()
+		w0, b0 := built.Weight, built.Bias
+		cp := *built
+		return &cp, "value copy of the layer", func() string {
+			if built.Weight != w0 || built.Bias != b0 {
+				return "work on a value copy of the layer replaced the parameters of the original layer"
+			}
+			return ""
+		}
+	}
+	return built, "NewFC", none
 }
 
 func c16Defaults(k *fw.K) {
@@ -561,4 +593,37 @@ func c16Accumulate(k *fw.K) {
 			}
 		}
 	}
+	// a step that is skipped: the parameters are given a fresh context (not replaced) and the layer is used again;
+	// the next back-propagation delivers that pass's gradient alone
+	for _, wp := range fc.Weights() {
+		(*wp.Value).ResetGradContext(true)
+	}
+	x := Shuffled(k.Rng, Unique(k.Rng, []int{1, D}, 0.2, 2))
+	g := randG(k, []int{1, O})
+	if p := call(func() {
+		var y tensor.Tensor
+		if y, err = fc.Forward(rt.MustLeaf(x, false)); err == nil {
+			if y, err = y.Mul(rt.MustLeaf(g, false)); err == nil {
+				err = tensor.BackPropagate(y)
+			}
+		}
+	}); p != nil || err != nil {
+		k.Failf("pass after re-arming the parameters: panic=%v err=%v", p, err)
+		return
+	}
+	yv, _ := ref.FC(x, w, b)
+	v := ref.VJP(ref.Instr{Op: "fc"}, []*ref.T{x, w, b}, yv, g, ref.RuleSum)
+	for pi := 0; pi < 2; pi++ {
+		gr := (*fc.Weights()[pi].Value).Gradient()
+		if gr == nil {
+			k.Failf("pass after re-arming the parameters: parameter %d has no gradient", pi)
+			return
+		}
+		got, err := rt.Read(gr)
+		if err != nil || gradClose(got, v[1+pi]) != nil {
+			k.Failf("after ResetGradContext(true) on the parameters (a skipped step) and one more pass: gradient of %s is %v, that pass alone gives %v (%v)", []string{"Weight", "Bias"}[pi], got, v[1+pi].Data, err)
+			return
+		}
+	}
+	k.Count("passes_after_re_arming_the_parameters", 1)
 }
